@@ -211,11 +211,42 @@ func runC14(c *an.Ctx) {
 			c.Check(okConst, "SECRET", fn, call.Pos(), key+":readme", "the remaining pseudo file is built from a constant string", "reader "+short(rt.Key()))
 		}
 	}
+	// the function that builds the archive: the handler itself, or a helper that only the handler calls
+	isCreate := func(call *ssa.Call) bool {
+		sc := call.Call.StaticCallee()
+		return sc != nil && an.IsRepoFunc(sc) && sc.Signature.Results().Len() == 1 && strings.Contains(sc.Signature.Results().At(0).Type().String(), "zipArchiveWriter")
+	}
+	creates := func(fn *ssa.Function) bool {
+		for _, b := range fn.Blocks {
+			for _, in := range b.Instrs {
+				if call, ok := in.(*ssa.Call); ok && isCreate(call) {
+					return true
+				}
+			}
+		}
+		return false
+	}
+	builder := handler
+	var builderCall *ssa.Call
+	if !creates(handler) {
+		for _, b := range handler.Blocks {
+			for _, in := range b.Instrs {
+				if call, ok := in.(*ssa.Call); ok {
+					if sc := call.Call.StaticCallee(); sc != nil && sc.Pkg == handler.Pkg && creates(sc) && calledOnlyFrom(p, sc, handler) {
+						builder, builderCall = sc, call
+					}
+				}
+			}
+		}
+		c.Scope(builder)
+	}
+	handlerFi := hfi
+	hfi = p.Info(builder)
 	// handler order: range over PublicFiles calling addFile, pubkey after the loop
 	var rng *ssa.Range
 	var rngIdxPhi bool
 	var addFileCall, addPubCall *ssa.Call
-	for _, b := range handler.Blocks {
+	for _, b := range builder.Blocks {
 		for _, in := range b.Instrs {
 			switch x := in.(type) {
 			case *ssa.Range:
@@ -254,7 +285,7 @@ func runC14(c *an.Ctx) {
 				okLoop = true
 			}
 			// every file of the list is added: no path through the loop skips the adder, and the loop is left early only by an error reply
-			if l := innermostLoopOf(handler, addFileCall.Block()); l != nil && okLoop {
+			if l := innermostLoopOf(builder, addFileCall.Block()); l != nil && okLoop {
 				okExit := true
 				for _, e := range l.earlyExits() {
 					// leaving after a failed add (the handler answers 500 and returns) is the only early exit
@@ -295,6 +326,7 @@ func runC14(c *an.Ctx) {
 	}
 
 	// LIMIT
+	hfi = handlerFi
 	var allow *ssa.Call
 	var newArchive *ssa.Call
 	for _, b := range handler.Blocks {
@@ -304,7 +336,7 @@ func runC14(c *an.Ctx) {
 				if strings.HasSuffix(name, "RateLimiter).Allow") {
 					allow = call
 				}
-				if sc := call.Call.StaticCallee(); sc != nil && an.IsRepoFunc(sc) && sc.Signature.Results().Len() == 1 && strings.Contains(sc.Signature.Results().At(0).Type().String(), "zipArchiveWriter") {
+				if isCreate(call) || call == builderCall {
 					newArchive = call
 				}
 			}
